@@ -41,7 +41,13 @@ type ConcTask struct {
 	MapGet  int           `json:"mapget,omitempty"`  // number of Get probes on the shared maps
 	UF      *UFCase       `json:"uf,omitempty"`      // unknown-field conversion round trip
 	UFBad   []evid.Hex    `json:"uf_bad,omitempty"`  // inputs ConvertUnknownFields has to reject
+	// SharedEnc > 0: that many TTHeader encodes whose IntInfo/StrInfo maps (incl. the acl-token key) are the
+	// same map values in every goroutine; the encoder only reads them, which is safe to do concurrently
+	SharedEnc int `json:"shared_enc,omitempty"`
 }
+
+var sharedEncInt = map[uint16]string{1: "a", 9: "method", 27: "3"}
+var sharedEncStr = map[string]string{"k": "v", ref.ACLTokenKey: "token-value", "x": "y", "isn": "svc"}
 
 // ConcCase is a set of per-goroutine task lists.
 type ConcCase struct {
@@ -78,6 +84,20 @@ func runConcTask(g, idx int, tk *ConcTask, sm *strmap.StrMap[int], s2s *strmap.S
 			}
 		}
 		return nil
+	case tk.SharedEnc > 0:
+		for i := 0; i < tk.SharedEnc; i++ {
+			frame, err := ttheader.EncodeToBytes(context.Background(), ttheader.EncodeParam{SeqID: int32(g*1000 + i), IntInfo: sharedEncInt, StrInfo: sharedEncStr})
+			if err != nil {
+				return evid.Failf("goroutine %d: EncodeToBytes with shared info maps failed: %v", g, err)
+			}
+			dp, err := ttheader.DecodeFromBytes(context.Background(), frame)
+			if err != nil || dp.SeqID != int32(g*1000+i) || !eqIntMap(dp.IntInfo, sharedEncInt) || !eqStrMap(dp.StrInfo, sharedEncStr) {
+				return evid.Failf("goroutine %d: a frame encoded from info maps that other goroutines encode from at the same time does not decode back to them (err=%v, %d int / %d string entries)", g, err, len(dp.IntInfo), len(dp.StrInfo))
+			}
+		}
+		if len(sharedEncStr) != 4 || sharedEncStr[ref.ACLTokenKey] != "token-value" {
+			return evid.Failf("goroutine %d: Encode modified the caller's StrInfo map", g)
+		}
 	case tk.UF != nil:
 		return checkUnknownFields(*tk.UF, &cv)
 	case tk.UFBad != nil:
@@ -230,6 +250,8 @@ func checkConcurrent(c ConcCase, cv *cov) *evid.Violation {
 				kinds["fastcodec"] = true
 			case tk.Frame != nil:
 				kinds["tth_frame_with_transforms"] = true
+			case tk.SharedEnc > 0:
+				kinds["tth_encode_from_shared_maps"] = true
 			case tk.UF != nil:
 				kinds["unknown_fields"] = true
 			case tk.UFBad != nil:
@@ -250,7 +272,9 @@ func checkConcurrent(c ConcCase, cv *cov) *evid.Violation {
 func init() { register("c14_concurrent", checkConcurrent) }
 
 func genConcTask(t *rapid.T) ConcTask {
-	switch rapid.IntRange(0, 10).Draw(t, "task") {
+	switch rapid.IntRange(0, 11).Draw(t, "task") {
+	case 11:
+		return ConcTask{SharedEnc: rapid.IntRange(5, 200).Draw(t, "sharedEnc")}
 	case 9:
 		c := genUFCase(t)
 		if len(c.Data) > 20000 {
@@ -361,7 +385,7 @@ func genConcCase(t *rapid.T) ConcCase {
 }
 
 func TestC14_Concurrent(t *testing.T) {
-	rec := evid.New("C14", "c14_concurrent", "rapid: program sets of 2..32 goroutines (GOMAXPROCS 2/4/16), each with its own list of 1..6 self-checking tasks drawn from: codec script round trip over private bufiox instances, all five skippers incl. the three pooled skip decoders, TTHeader encode/decode, raw bufiox reader and writer histories (contending on the shared mcache across size classes), shipped FastCodec structs, unknown-field conversion round trips and rejected conversions, Binary.ReadString/ReadBinary on tagged payloads, and Get on shared StrMap/Str2Str instances loaded before the goroutines start; every task applies the sequential oracle of its property; each set repeated; built with -race, any DATA RACE report is a violation; non-trivial = >= 2 goroutines (always)")
+	rec := evid.New("C14", "c14_concurrent", "rapid: program sets of 2..32 goroutines (GOMAXPROCS 2/4/16), each with its own list of 1..6 self-checking tasks drawn from: codec script round trip over private bufiox instances, all five skippers incl. the three pooled skip decoders, TTHeader encode/decode (also from info maps shared read-only between goroutines), raw bufiox reader and writer histories (contending on the shared mcache across size classes), shipped FastCodec structs, unknown-field conversion round trips and rejected conversions, Binary.ReadString/ReadBinary on tagged payloads, and Get on shared StrMap/Str2Str instances loaded before the goroutines start; every task applies the sequential oracle of its property; each set repeated; built with -race, any DATA RACE report is a violation; non-trivial = >= 2 goroutines (always)")
 	defer rec.Flush()
 	rec.Assume("schedules are chosen by the Go scheduler: repeated randomized stress, no schedule coverage is claimed")
 	shard, _ := evid.Shard()
